@@ -53,6 +53,44 @@ def creates_at_param(fb, fn, memo):
     return out
 
 
+def returns_tmp(fb, fn, memo, depth=0):
+    """Does crate fn `fn` return a path made with Path::with_extension (the temporary name), possibly through helpers?"""
+    if fn in memo:
+        return memo[fn]
+    memo[fn] = False
+    b = fb.mir.get(fn)
+    if not b or depth > 3:
+        return False
+    fl = Flow(fb, b)
+    r = is_tmp(fb, fl.atoms(0), memo, depth + 1)
+    memo[fn] = r
+    return r
+
+
+def is_tmp(fb, atoms, memo, depth=0):
+    return any(a[0] == "call" and (a[1].endswith("Path::with_extension") or (a[1] in fb.mir and returns_tmp(fb, a[1], memo, depth))) for a in atoms)
+
+
+def save_unit(fb, d, memo):
+    """(function holding the create/rename logic, index of its destination parameter, delegation call or None).
+    Usually the entry point itself; a thin entry point that hands its path to one private body is followed."""
+    b = fb.mir[d]
+    pps = path_params(fb, b)
+    dest = pps[-1] if pps else None
+    fl = Flow(fb, b)
+    own = any(t.get("fn") == "std::fs::rename" or t.get("fn") in CREATORS for _, t in fl.calls())
+    if own or dest is None:
+        return d, dest, None
+    for bi, t in fl.calls():
+        f = t.get("fn", "")
+        if f in fb.mir and any(c in fb.reachable_from([f]) for c in CREATORS):
+            for i, a in enumerate(t["args"]):
+                if ("arg", dest) in fl.atoms(a, through_calls=False) and (i + 1) in path_params(fb, fb.mir[f]):
+                    if any(tt.get("fn") == "std::fs::rename" for _, tt in fb.calls_in(fb.mir[f])):
+                        return f, i + 1, (bi, t)
+    return d, dest, None
+
+
 def rule_temp_rename(chk, fb, eps):
     ra = chk.rule(
         "C13.a",
@@ -60,13 +98,19 @@ def rule_temp_rename(chk, fb, eps):
         floor=5,
     )
     memo = {}
+    tmemo = {}
     for d in eps:
-        b = fb.mir[d]
-        chk.touch(d)
+        unit, dest, via = save_unit(fb, d, memo)
+        chk.touch(d, unit)
+        if via is not None:
+            # a thin entry point: the result of the private body must be what the entry point returns
+            eb = fb.mir[d]
+            efl = Flow(fb, eb)
+            ok = any(a[0] == "call" and a[2] == via[0] for a in efl.atoms(0))
+            chk.ob(ra, "%s:delegates" % d, ok, where="%s:%s" % (eb["file"], via[1]["ln"]), detail="the entry point hands its destination to %s and returns its result: %s" % (unit.split("::")[-1], ok))
+        b = fb.mir[unit]
         fl = Flow(fb, b)
         cfg = CFG(b)
-        pps = path_params(fb, b)
-        dest = pps[-1] if pps else None  # destination = last path-like parameter (from_path, to_path: the last)
         # creation sites (direct or through callees)
         sites = []
         for bi, t in fl.calls():
@@ -81,7 +125,7 @@ def rule_temp_rename(chk, fb, eps):
             chk.ob(ra, "%s:creates" % d, False, where=fb.loc(d), detail="no file-creating call found")
         for n, (bi, t, arg) in enumerate(sites):
             at = fl.atoms(arg)
-            tmp = any(a[0] == "call" and a[1].endswith("Path::with_extension") for a in at)
+            tmp = is_tmp(fb, at, tmemo)
             chk.ob(ra, "%s:create#%d" % (d, n), tmp, where="%s:%s" % (b["file"], t["ln"]),
                    detail="file created through %s at a path %s" % (t["fn"].split("::")[-1], "derived from the temporary name" if tmp else "that is NOT a temporary name (the caller's destination is written in place)"))
         renames = [(bi, t) for bi, t in fl.calls(lambda t: t.get("fn") == "std::fs::rename")]
@@ -91,8 +135,10 @@ def rule_temp_rename(chk, fb, eps):
         for bi, t in renames:
             a0 = fl.atoms(t["args"][0])
             a1 = fl.atoms(t["args"][1])
-            ok = any(a[0] == "call" and a[1].endswith("Path::with_extension") for a in a0) and not any(a[0] == "call" and a[1].endswith("Path::with_extension") for a in a1) and ("arg", dest) in a1
-            chk.ob(ra, "%s:rename-operands" % d, ok, where="%s:%s" % (b["file"], t["ln"]), detail="rename(from: temp=%s, to: destination parameter=%s)" % (any(a[0] == "call" and a[1].endswith("with_extension") for a in a0), ("arg", dest) in a1))
+            # the destination operand is the parameter itself: it must not come out of the temp-name computation
+            a1d = a1
+            ok = is_tmp(fb, a0, tmemo) and not is_tmp(fb, a1d, tmemo) and ("arg", dest) in a1d
+            chk.ob(ra, "%s:rename-operands" % d, ok, where="%s:%s" % (b["file"], t["ln"]), detail="rename(from: temp=%s, to: destination parameter=%s)" % (is_tmp(fb, a0, tmemo), ("arg", dest) in a1d and not is_tmp(fb, a1d, tmemo)))
             # success edges: every Result-returning call that can reach the rename is checked with the rename on the Ok side
             bad = []
             for ci, ct in fl.calls():
